@@ -472,6 +472,39 @@ func checkC01(w *Worker) {
 		}
 		x.Obs(fmt.Sprint(hash64([]byte(obs))))
 	})
+	// small and cancelling amounts: an element that reaches a recipe along three lines (the element itself, or a sub-recipe
+	// that holds it), with amounts and coefficients down to 1/1024 of either sign (all dyadic: every product and every sum
+	// is exact) - running sums pass through zero, through values that print as 0.00 and -0.00, and back
+	{
+		vals := []float64{-1.0 / 256, 1.0 / 512, -1.0 / 1024, -1.0 / 128, 0.5, -1, 1.0 / 256}
+		w.Explore("small-and-cancelling-amounts", ExploreOpts{ShardDepth: 4}, func(x *Exec) {
+			api := x.Choose(2, "input:api")
+			sv := vals[x.Choose(len(vals), "input:amount-in-the-sub-recipe")]
+			top := absRecipe{Name: "top"}
+			for l := 0; l < 3; l++ {
+				v := vals[x.Choose(len(vals), "input:amount-or-coefficient")]
+				if x.Choose(2, "input:line-kind") == 1 {
+					top.Ings = append(top.Ings, absIng{"sub", v})
+				} else {
+					top.Ings = append(top.Ings, absIng{"e", v})
+				}
+			}
+			book := absBook{top, {"sub", []absIng{{"e", sv}, {"f", 1}}}}
+			want := refResolve(book)
+			db := book.toDB()
+			err := resolveVia(api, db, 10)
+			x.Case(book.String()+fmt.Sprint(api), true)
+			rep := map[string]interface{}{"api": apiNames[api], "book": book.String()}
+			if err != nil {
+				x.Violate("C01|small-amounts|resolution-fails", fmt.Sprintf("book {%s} via %s: %v", book, apiNames[api], err), rep)
+				return
+			}
+			x.Obs(elementsString(db["top"].Elements))
+			if msg := compareResolved(db["top"].Elements, want["top"]); msg != "" {
+				x.Violate("C01|small-amounts|wrong-resolution", fmt.Sprintf("book {%s} via %s: top resolved to %s, expected %s: %s", book, apiNames[api], elementsString(db["top"].Elements), refString(want["top"]), msg), rep)
+			}
+		})
+	}
 	// deep books under limits above the default: a chain of 9..30 recipes (with a plain ingredient at every level; or two
 	// heads sharing the tail) resolved under N = chain + 1, 20 and 100 - every recipe is the exact sum of products, whatever
 	// order the book map is visited in (identity, reversal, every rotation, every adjacent swap of the sorted names)
